@@ -1,4 +1,4 @@
 (* extraction of the string-quoting model (C03); directives: ExtrOcamlBasic only *)
 From Coq Require Import ExtrOcamlBasic.
 From CssV Require Import Base Regex Tokenizer Quote Gen.Quote.
-Extraction "quote_model.ml" hstring hstringvalue stringtokenvalue first_token mkTok.
+Extraction "quote_model.ml" hstring hstring_uri hstringvalue stringtokenvalue first_token mkTok.
